@@ -286,6 +286,12 @@ func internalUnmarshal(v *internalStruct) (any, error) {
 			target.Elem().Set(reflect.New(target.Type().Elem().Elem()))
 			target = target.Elem()
 		}
+		if target.Type().Elem().Kind() == reflect.Ptr && string(v.JSONValue) == "null" {
+			// a nil pointer: reflect.New already made it. The JSON decoder is not asked,
+			// it refuses null for pointee types it cannot decode at all (a struct with a
+			// map[bool]T field), although values of those types are restored field by field
+			return pResult.Elem().Interface(), nil
+		}
 		err := sonic.Unmarshal(v.JSONValue, target.Interface())
 		if err != nil {
 			return nil, fmt.Errorf("unmarshal type[%s] fail: %v, data: %s", v.Type, err, string(v.JSONValue))
